@@ -519,6 +519,10 @@ func c09run(k *c09case, generous bool) (o c09obs) {
 		switch {
 		case !ok:
 			fail("record-type:"+k.name(), "result of unexpected type %T", r.res)
+		case sr == nil:
+			// a non-nil scan.Result holding a nil *ScanResult: the engine's `result != nil` test lets it through
+			// and the logger dereferences it
+			fail("record-typed-nil:"+k.name(), "Scan returned a non-nil scan.Result that holds a nil *ScanResult (a typed nil): the engine would queue it as a detection and the logger would crash on it")
 		case sr.IP != s.ip.String() || int(sr.Port) != s.port || sr.ScanType != "socks" || sr.Version != 5 || sr.ID() != o.Target:
 			fail("record-fields:"+k.name(), "record {scan:%q version:%d ip:%q port:%d id:%q} does not carry the probed target %s", sr.ScanType, sr.Version, sr.IP, sr.Port, sr.ID(), o.Target)
 		default:
